@@ -124,6 +124,18 @@ CLAIMS = {
              "compared on each (614k cases quick).",
         design_ref="DESIGN.md section 4 C12", note=TRUST,
         technique="TLA+ model checking (TLC) + replay of every TLC-enumerated input with its specified verdict into the real parser"),
+    "C13": dict(
+        category="exploration",
+        text="Run-time half: every record of every trace carries the number of heap allocations made while library code ran (counting global "
+             "allocator, paused inside the harness's own doubles) and the trace specification's monitors require 0 for all fixed-capacity writers and "
+             "for process; this check drives ~2.7k multi-configuration cases (message sequences, every literal class, every response-table entry, float "
+             "bit patterns, error-queue sessions, random bytes) through run() into heapless::Vec / bounded writers and through process::<N>. Build half: a "
+             "#![no_std], allocator-less staticlib that instantiates an interface through the macro against microscpi with default features must build "
+             "(it fails with 'no global memory allocator found' as soon as anything needs alloc - verified once by hand), and cargo build -p microscpi.",
+        design_ref="DESIGN.md sections 4 C13, 5, 10.6",
+        note="The allocation monitor is a conjunct of TraceScpi (so it also runs inside every other check); the build half is decided by the compiler, "
+             "TLA+ contributes nothing to it. Seeded sampling, not exhaustive.",
+        technique="allocation-count monitor in the TLA+ trace specification over recorded executions + no_std/no-alloc build probe"),
     "C14": dict(
         category="model_checking",
         text="MCScpiTree checks for every enumerated declaration set that macro-shaped trie insertion fails exactly when two handlers share "
